@@ -1619,3 +1619,16 @@ theorem stripT_eraseLabel : (t : Toks) → stripT (eraseLabel t) = stripT t
   | .u c :: r => by simp [eraseLabel, stripT, stripToks]; exact stripT_eraseLabel r
 
 end ErrModel
+
+namespace ErrModel
+
+/-- Error() of a wrapper, as its method computes it through the engine, is the compositional text
+    over the Error() of its cause (the cause being regular) -/
+theorem errText_wrap_reg (id : Ident) (k : WrapKind) (c : Err) (h : RegE c) :
+    errText (.wrap id k c) = wrapText k (errText c) := by
+  apply errText_wrap
+  intro o wd d ls
+  have hv := v_text c h false o wd d ls
+  rw [stripT_singleLine false _ hv.good hv.asc, hv.txt]
+
+end ErrModel
